@@ -35,7 +35,7 @@ Range(s) == {s[i] : i \in 1..Len(s)}
 
 TBrs == <<"a", "b", "c", "d">>
 TNB == 4
-TNT == 3
+TNT == 6
 BrIx(b) == CHOOSE i \in 1..TNB : TBrs[i] = b
 
 RECURSIVE Chain(_, _)
